@@ -649,6 +649,10 @@ func (ex *Exec) joseVerify(jp Ptr, key Value) Value {
 	}
 	kid := ex.keyIdentity(key)
 	ok := UF("jws.verifies", SBool, tok, kid)
+	if signer, has := ex.memo["signedby:"+tok.String()].(*Term); has {
+		// a token produced by the provider's signer verifies exactly under the public half of that key
+		ok = Eq(signer, kid)
+	}
 	jws := (*jp.slot()).(*StructV)
 	rec := ex.ghostList("jose.verify")
 	rec = append(rec, Tuple{tok, kid, ok})
